@@ -16,3 +16,6 @@ func raceReleaseMerge(p unsafe.Pointer) {}
 func RaceErrors() int { return 0 }
 
 func newTok() unsafe.Pointer { return nil }
+
+// RaceEnabled reports whether the binary was built with -race.
+func RaceEnabled() bool { return false }
